@@ -259,6 +259,7 @@ impl Ctx {
 
     pub fn violation(&mut self, check: &str, case: &Value, msg: &str) {
         let path = self.write_finding(check, case, msg);
+        VIOLATION_PRINTED.store(true, Ordering::SeqCst);
         println!("VIOLATION property={} replay={}", self.property, path.display());
         println!("  check={} {}", check, crate::runner::trunc(msg, 2000));
         self.violations.push(Violation { check: check.to_string(), msg: msg.to_string(), replay: path });
@@ -490,6 +491,12 @@ extern "C" fn on_abort(_sig: libc::c_int) {
                             w(1, b"\n  the process aborted while running this case (abort, stack overflow or allocation failure)\n");
                             libc::_exit(1);
                         }
+                        if VIOLATION_PRINTED.load(Ordering::SeqCst) {
+                            w(1, b"note: after the violation above the process aborted (allocation failure or stack overflow) while running the case saved in ");
+                            w(1, &path[..k]);
+                            w(1, b"\n");
+                            libc::_exit(1);
+                        }
                         w(1, b"INCONCLUSIVE: the process aborted (allocation failure or stack overflow) while running the case saved in ");
                         w(1, &path[..k]);
                         w(1, b"\n");
@@ -504,6 +511,9 @@ extern "C" fn on_abort(_sig: libc::c_int) {
 }
 
 static ABORT_IS_VIOLATION: AtomicBool = AtomicBool::new(false);
+/// a VIOLATION line has been printed by this process (an abort afterwards must not turn the
+/// exit status into "inconclusive")
+pub static VIOLATION_PRINTED: AtomicBool = AtomicBool::new(false);
 
 /// Every property: an abort is reported with the case that was running. For C05 an abort inside
 /// jawk is a violation of "never panics, aborts or loops forever"; elsewhere it is inconclusive.
